@@ -2,6 +2,7 @@ import PttVerif.DriverLoop
 import PttVerif.Model.C18
 import PttVerif.Model.C18Ansi
 import PttVerif.Model.C18Misc
+import PttVerif.Model.C18Alias
 open PttVerif PttVerif.C18
 
 /-- two hex fields. -/
@@ -20,11 +21,63 @@ def byte? (s : String) : Option Nat := match s.toNat? with
   | some n => if n < 256 then some n else none
   | none => none
 
+/-- an argument of a history step: hex literal or `@i` (the first slice held from step i). -/
+def parseArg (allowRef : Bool) (w : String) : Option Arg :=
+  if w.startsWith "@" then
+    if allowRef then (w.drop 1).toString.toNat?.map Arg.ref else none
+  else (parseHex w).map Arg.lit
+
+/-- one history step: `sa:<flag>:<arg> | cb:<arg> | lo:<arg> | up:<arg> | tk:<arg>:<sephex> | dt:<arg> | tr:<arg> |
+rl:<arg> | nb:<hex> | td:<hex> | sx:<hex65>`. -/
+def parseStep (allowRef : Bool) (w : String) : Option Step :=
+  match w.splitOn ":" with
+  | ["sa", f, a] => do
+      let fl ← f.toNat?
+      let x ← parseArg allowRef a
+      pure (.strip fl x)
+  | ["cb", a] => (parseArg allowRef a).map .toBytes
+  | ["lo", a] => (parseArg allowRef a).map .lower
+  | ["up", a] => (parseArg allowRef a).map .upper
+  | ["tk", a, sp] => do
+      let x ← parseArg allowRef a
+      let sep ← parseHex sp
+      pure (.tokenR x sep)
+  | ["dt", a] => (parseArg allowRef a).map .dbcsTrim
+  | ["tr", a] => (parseArg allowRef a).map .trim
+  | ["rl", a] => (parseArg allowRef a).map .lines
+  | ["nb", h] => (parseHex h).map .nb5
+  | ["td", h] => (parseHex h).map .trimDBCS
+  | ["sx", h] => match parseHex h with
+      | some b => if b.length = TTLEN + 1 then some (.subject b) else none
+      | none => none
+  | _ => none
+
+def parseSteps (allowRef : Bool) : List String → Option (List Step)
+  | [] => some []
+  | w :: ws => do
+      let st ← parseStep allowRef w
+      let rest ← parseSteps allowRef ws
+      pure (st :: rest)
+
+def showHeld (r : Option Nat × List (List Nat)) : String :=
+  (match r.1 with | some t => toString t ++ "/" | none => "") ++
+  (if r.2.isEmpty then "." else "/".intercalate (r.2.map toHex))
+
+/-- `hist` / `conc`: run the heap model, print everything held as read from the FINAL heap. -/
+def runHistOp (allowRef : Bool) (ws : List String) : String :=
+  if ws.isEmpty then "bad-op" else
+  match parseSteps allowRef ws with
+  | none => "bad-op"
+  | some steps => match histObserve steps with
+    | none => "bad-op"
+    | some m => showM (fun rs => ",".intercalate (rs.map showHeld)) m
+
 /-- ops (group 1): cstrlen h | cstrtobytes h | cstrcmp a b | cstrcasecmp a b | cstrstr h n | cstrcasestr h n |
 casehasprefix s p | tokenr s sep
 (group 2): stripansi <flag> h
 (group 3): readlines h | strhash h | strhashbits h | stripnb5 h | dbcsnext <c> <prev> | dbcsstatus <pos> h |
-dbcstrim h | trim h | trimdbcs h | subjectex h -/
+dbcstrim h | trim h | trimdbcs h | subjectex h
+(ownership): hist <step>... | conc <step>... (steps: see `parseStep`) -/
 def stepC18 (_ : Unit) (ws : List String) : Unit × String :=
   let out := match ws with
     | ["cstrlen", h] => match parseHex h with
@@ -85,6 +138,8 @@ def stepC18 (_ : Unit) (ws : List String) : Unit × String :=
         | some s => if s.length = TTLEN + 1 then
             showM (fun (p : Nat × List Nat) => toString p.1 ++ " " ++ toHex p.2) (subjectEx s) else "bad-op"
         | none => "bad-op"
+    | "hist" :: steps => runHistOp true steps
+    | "conc" :: steps => runHistOp false steps
     | _ => "bad-op"
   ((), out)
 
